@@ -18,6 +18,9 @@ import NV.Model.FS
 import NV.Lemmas.FS
 import NV.Gen.Resolv
 import NV.Driver.FS
+import NV.Model.Activate
+import NV.Lemmas.Activate
+import NV.Gen.Activate
 namespace NV.C19
 open NV.FS
 
@@ -480,5 +483,164 @@ theorem activate_independent_of_networkmanager (s : FS) (dns : Bytes) (nm : Bool
   unfold NV.setupNM
   cases h : setup Variant.cur s dns with
   | mk ps st => cases st <;> simp
+
+/-! ### activate.go: WHICH address the activated file names -/
+section Activate
+open NV.Activate
+
+/-- the bytes of an (ASCII) address text as `host.SetDNS` writes them -/
+def toBytes (s : S) : Bytes := s.map fun c => c.toNat.toUInt8
+
+theorem ipChar_printable (c : Char) (h : ipChar c = true) : 33 ≤ (c.toNat.toUInt8).toNat ∧ (c.toNat.toUInt8).toNat ≤ 126 := by
+  have hb : 33 ≤ c.toNat ∧ c.toNat ≤ 126 := by
+    simp only [ipChar, isHex, isDigit, Bool.or_eq_true, Bool.and_eq_true, decide_eq_true_eq, beq_iff_eq] at h
+    rcases h with (((h | h) | h) | h) | h
+    · omega
+    · omega
+    · omega
+    · subst h; decide
+    · subst h; decide
+  have : (c.toNat.toUInt8).toNat = c.toNat := by
+    simp [Nat.toUInt8, UInt8.toNat_ofNat']
+    omega
+  omega
+
+/-- an address `net.ParseIP` accepts is a non-empty string of hex digits, ':' and '.': what `activated_shape` needs -/
+theorem parsed_ip_valid_dns (h : S) (hip : parseIP h = true) : ValidDns (toBytes h) := by
+  obtain ⟨hne, hc⟩ := parseIP_chars h hip
+  refine ⟨by simpa [toBytes] using hne, ?_⟩
+  intro d hd
+  simp only [toBytes, List.mem_map] at hd
+  obtain ⟨c, hcm, rfl⟩ := hd
+  exact ipChar_printable c (hc c hcm)
+
+/-- **every outcome of `listenIP`**: a loopback address, the host as written when it is an IP literal, the first
+address the hosts file lists for the name — or an error, in which case `activate` returns before touching any file. -/
+theorem listenIP_cases (lookup : S → List S) (listen : S) :
+    listenIP lookup listen = .addr loopback4 ∨ listenIP lookup listen = .addr loopback6 ∨
+    listenIP lookup listen = .errPort ∨ listenIP lookup listen = .errNoAddr ∨
+    ∃ host port, splitHostPort listen = some (host, port) ∧ (port = port53 ∨ port = portDomain) ∧
+      ((parseIP host = true ∧ listenIP lookup listen = .addr host) ∨
+       (parseIP host = false ∧ ∃ a rest, lookup host = a :: rest ∧ listenIP lookup listen = .addr a)) := by
+  cases hs : splitHostPort listen with
+  | none => left; simp [listenIP, hs]
+  | some hp =>
+    obtain ⟨host, port⟩ := hp
+    by_cases hport : port ≠ port53 ∧ port ≠ portDomain
+    · right; right; left; simp [listenIP, hs, hport]
+    · have hp' : port = port53 ∨ port = portDomain := by
+        by_cases h1 : port = port53
+        · exact Or.inl h1
+        · right
+          by_cases h2 : port = portDomain
+          · exact h2
+          · exact absurd ⟨h1, h2⟩ hport
+      by_cases hw : host = [] ∨ host = wild4
+      · left; simp only [listenIP, hs, if_neg hport, if_pos hw]
+      · by_cases h6 : host = wild6
+        · right; left; simp only [listenIP, hs, if_neg hport, if_neg hw, if_pos h6]
+        · cases hip : parseIP host with
+          | true =>
+            right; right; right; right
+            refine ⟨host, port, rfl, hp', Or.inl ⟨hip, ?_⟩⟩
+            simp only [listenIP, hs, if_neg hport, if_neg hw, if_neg h6, hip, if_true]
+          | false =>
+            cases hl : lookup host with
+            | nil =>
+              right; right; right; left
+              simp only [listenIP, hs, if_neg hport, if_neg hw, if_neg h6, hip, hl]
+              simp
+            | cons a rest =>
+              right; right; right; right
+              refine ⟨host, port, rfl, hp', Or.inr ⟨hip, a, rest, hl, ?_⟩⟩
+              simp only [listenIP, hs, if_neg hport, if_neg hw, if_neg h6, hip, hl]
+              simp
+
+/-- a listen value with any port other than 53 / "domain" never activates: nothing is written -/
+theorem non53_never_activates (lookup : S → List S) (listen host port : S)
+    (hs : splitHostPort listen = some (host, port)) (h1 : port ≠ port53) (h2 : port ≠ portDomain) :
+    listenIP lookup listen = .errPort := by
+  simp [listenIP, hs, h1, h2]
+
+/-- a wildcard listen address activates the loopback address of its family; a value without a port activates 127.0.0.1 -/
+theorem wildcards_to_loopback (lookup : S → List S) :
+    listenIP lookup (':' :: port53) = .addr loopback4 ∧ listenIP lookup (wild4 ++ ':' :: port53) = .addr loopback4 ∧
+    listenIP lookup ('[' :: (wild6 ++ ']' :: ':' :: port53)) = .addr loopback6 ∧
+    listenIP lookup (wild4 ++ ':' :: portDomain) = .addr loopback4 ∧
+    listenIP lookup ['l', 'o', 'c', 'a', 'l', 'h', 'o', 's', 't'] = .addr loopback4 := by
+  have h1 : splitHostPort (':' :: port53) = some ([], port53) := by decide
+  have h2 : splitHostPort (wild4 ++ ':' :: port53) = some (wild4, port53) := by decide
+  have h3 : splitHostPort ('[' :: (wild6 ++ ']' :: ':' :: port53)) = some (wild6, port53) := by decide
+  have h4 : splitHostPort (wild4 ++ ':' :: portDomain) = some (wild4, portDomain) := by decide
+  have h5 : splitHostPort ['l', 'o', 'c', 'a', 'l', 'h', 'o', 's', 't'] = none := by decide
+  have n1 : wild6 ≠ [] ∧ wild6 ≠ wild4 ∧ portDomain ≠ port53 := by decide
+  refine ⟨?_, ?_, ?_, ?_, ?_⟩
+  · unfold listenIP; rw [h1]; simp
+  · unfold listenIP; rw [h2]; simp
+  · unfold listenIP; rw [h3]; simp [n1.1, n1.2.1]
+  · unfold listenIP; rw [h4]; simp [n1.2.2]
+  · unfold listenIP; rw [h5]
+
+/-- **the proxy's own address is the one that is named**: an IPv4 literal (or any IP literal without ':') listening on
+port 53 activates exactly that address -/
+theorem literal_address_kept (lookup : S → List S) (h : S) (hip : parseIP h = true)
+    (hc : ∀ x ∈ h, x ≠ ':' ∧ x ≠ '[' ∧ x ≠ ']') (hw : h ≠ wild4) :
+    listenIP lookup (h ++ ':' :: port53) = .addr h := by
+  have hs := splitHostPort_join h port53 hc (by decide)
+  have hne : h ≠ [] := (parseIP_chars h hip).1
+  have h6 : h ≠ wild6 := by
+    intro he; subst he; exact absurd (hc ':' (by decide)).1 (by decide)
+  simp [listenIP, hs, hne, hw, h6, hip]
+
+example : listenIP (fun _ => []) "192.168.1.1:53".toList = .addr "192.168.1.1".toList ∧
+    listenIP (fun _ => []) "[fd00::1]:53".toList = .addr "fd00::1".toList ∧
+    listenIP (fun _ => []) "[::ffff:10.0.0.1]:domain".toList = .addr "::ffff:10.0.0.1".toList ∧
+    listenIP (fun _ => []) "192.168.1.1:5353".toList = .errPort ∧
+    listenIP (fun _ => []) "lan-a:53".toList = .errNoAddr ∧
+    listenIP (fun n => if n = "lan-a".toList then ["10.0.0.9".toList, "fd00::9".toList] else []) "lan-a:53".toList
+      = .addr "10.0.0.9".toList := by decide
+
+/-- with the router integration on, the host's own resolver goes through dnsmasq on the loopback address, whatever
+`-listen` says -/
+theorem router_always_loopback (lookup : S → List S) (l : S) (ls : List S) :
+    activate lookup (l :: ls) true = .addr loopback4 := by
+  have h1 : splitHostPort routerListen = some (loopback4, port53) := by decide
+  have hip : parseIP loopback4 = true := by decide
+  have n1 : loopback4 ≠ [] ∧ loopback4 ≠ wild4 ∧ loopback4 ≠ wild6 := by decide
+  simp [activate, listenIP, h1, hip, n1.1, n1.2.1, n1.2.2]
+
+/-- **the address handed to `host.SetDNS` satisfies the hypothesis of `activated_shape`** (non-empty printable ASCII
+without blanks), provided the hosts file's addresses do — they are `net.IP.String()` texts. -/
+theorem activate_addr_valid (lookup : S → List S) (listens : List S) (sr : Bool) (a : S)
+    (hl : ∀ h x, x ∈ lookup h → ValidDns (toBytes x)) (ha : activate lookup listens sr = .addr a) :
+    ValidDns (toBytes a) := by
+  unfold activate at ha
+  cases listens with
+  | nil => simp at ha
+  | cons l ls =>
+    simp only at ha
+    generalize (if sr = true then routerListen else l) = listen at ha
+    rcases listenIP_cases lookup listen with h | h | h | h | ⟨host, port, _, _, h⟩
+    · rw [h] at ha; cases ha; decide
+    · rw [h] at ha; cases ha; decide
+    · rw [h] at ha; cases ha
+    · rw [h] at ha; cases ha
+    · rcases h with ⟨hip, h⟩ | ⟨_, x, rest, hlk, h⟩
+      · rw [h] at ha; cases ha; exact parsed_ip_valid_dns _ hip
+      · rw [h] at ha; cases ha; exact hl host a (by simp [hlk])
+
+open NV.Gen in
+/-- **(regenerated)** the tables of `listenIP` and the shape of `activate` are the ones the model was written from:
+ports 53 / domain, wildcard hosts, the fallback when SplitHostPort fails, the router override, `c.Listens[0]`, and
+`host.SetDNS` applied to listenIP's result. -/
+theorem gen_activate_agree :
+    Gen.Activate.ports = ["53", "domain"] ∧
+    Gen.Activate.wildcards = [(["", "0.0.0.0"], "127.0.0.1"), (["::"], "::1")] ∧
+    Gen.Activate.splitErrorResult = "127.0.0.1" ∧ Gen.Activate.routerListen = String.ofList NV.Activate.routerListen ∧
+    Gen.Activate.firstListen = true ∧ Gen.Activate.setDNSOfListenIP = true ∧
+    Gen.Activate.parseIPBeforeLookup = true ∧ Gen.Activate.firstLookupAddr = true := by decide
+
+end Activate
+
 
 end NV.C19
